@@ -174,7 +174,8 @@ fn run_ops(ops: &[Op]) -> Option<(String, String)> {
 fn prior_states() -> Vec<Vec<Op>> {
     vec![
         vec![],
-        vec![Op::Write(0x00, 0xAA), Op::Write(0xEF, 0x55), Op::Input(0, 0x11), Op::Input(3, 0x44), Op::Write(0xFE, 0x7E), Op::Write(0xFF, 0x7F)],
+        // every register holds a value of its own, so that a read or write landing on a neighbour shows
+        vec![Op::Write(0x00, 0xAA), Op::Write(0xEF, 0x55), Op::Write(0xEE, 0x56), Op::Input(0, 0x11), Op::Input(1, 0x22), Op::Input(2, 0x33), Op::Input(3, 0x44), Op::Write(0xFE, 0x7E), Op::Write(0xFF, 0x7F), Op::Di1(0x66), Op::Write(0xF0, 0x77), Op::Write(0xF1, 0x88), Op::J1(true)],
         vec![Op::Write(0xF9, 0x01), Op::Write(0xF0, 200), Op::Write(0xF1, 50), Op::Ai1(30), Op::Write(0xF2, 0x87), Op::Write(0xF2, 0xC4), Op::Di1(0x99)],
     ]
 }
